@@ -31,6 +31,9 @@ type Op struct {
 	VLen  int  `json:"vlen,omitempty"`
 	VSeed int  `json:"vseed,omitempty"`
 	Spare bool `json:"spare,omitempty"` // present the key as a slice with spare capacity
+	// CAS is put into the request header's CAS field (binary). rend ignores the field; it must not
+	// leak anywhere.
+	CAS uint64 `json:"cas,omitempty"`
 }
 
 // Value returns the op's value bytes.
@@ -134,6 +137,14 @@ func u32(v uint32) []byte {
 
 // EncodeBinary renders the op in the binary protocol.
 func EncodeBinary(o Op) []byte {
+	b := encodeBinary(o)
+	if o.CAS != 0 && len(b) >= 24 && o.Kind != "raw" {
+		binary.BigEndian.PutUint64(b[16:24], o.CAS)
+	}
+	return b
+}
+
+func encodeBinary(o Op) []byte {
 	switch o.Kind {
 	case "raw":
 		return o.Raw
